@@ -634,7 +634,18 @@ func (fr *Frame) logCall(st, pre *State, key, recv string, args []Val, res []Val
 		payload = fmt.Sprintf("(%s %s)", box, vc.term(pre, a))
 		break
 	}
-	vc.logEffect(st, key, recv, strs, errT, payload)
+	// the first pointer argument that designates a known variable is recorded by the identity of that variable
+	ptr := ""
+	for _, a := range args {
+		if a.T == nil || a.Loc == nil || len(a.Loc.Path) != 0 {
+			continue
+		}
+		if _, isPtr := a.T.Underlying().(*types.Pointer); isPtr {
+			ptr = fmt.Sprint(a.Loc.Cell.id)
+			break
+		}
+	}
+	vc.logEffect(st, key, recv, strs, errT, payload, ptr)
 }
 
 // ---------------------------------------------------------------- builtins
